@@ -66,7 +66,11 @@ double   vf_bits2d (uint64_t b) ;
 
 #if defined (__CPROVER__) || defined (VERIF_CBMC)
 
+#ifdef WITNESS_ONLY	/* twin build: only the vacuity witness is left (expensive harnesses check it in a separate, cheap query) */
+#define VASSERT(c, msg)		((void) 0)
+#else
 #define VASSERT(c, msg)		__CPROVER_assert ((c), msg)
+#endif
 #define VASSUME(c)		__CPROVER_assume (c)
 #define V_W_OK(p, n)		__CPROVER_w_ok ((p), (n))
 #define V_R_OK(p, n)		__CPROVER_r_ok ((p), (n))
@@ -94,7 +98,7 @@ void vf_assume_fail (const char *cond, const char *file, int line) ;
 /* Vacuity witness: the last statement of every harness. It must come back
  * FAILED from the solver (reachable); run_check.py treats a harness whose
  * witness is unreachable as broken machinery. Compiled out in replay. */
-#if defined (__CPROVER__) || defined (VERIF_CBMC)
+#if (defined (__CPROVER__) || defined (VERIF_CBMC)) && ! defined (NO_WITNESS)
 #define WITNESS_END()		__CPROVER_assert (0, "WITNESS end of harness reachable")
 #else
 #define WITNESS_END()		do { } while (0)
